@@ -283,6 +283,11 @@ def run(run):
     leftover_histories(run, r)
     if run.thorough and run.shard in (None, 0):
         wrap_history(run, r)
+    if run.thorough and run.shard in (None, 1):
+        # the same client code against a real kernel socket and the real servers of this tree (no OS double)
+        from . import loopclient
+        loopclient.histories(run, r, [0], 25, prop='C08')
+        run.floor('real-socket transactions', sum(v for k, v in run.counters.items() if k.startswith('loopclient_transactions:')), 500)
     run.floor('transactions per client kind (min)', min(run.counters.get('transactions:%s' % k, 0) for k in KINDS), 150 if run.shard is None else 10)
     run.floor('own replies returned', run.counters.get('result:own', 0), 800 if run.shard is None else 50)
     run.floor('clean-region transactions', run.counters.get('clean_region_cases', 0), 600 if run.shard is None else 40)
@@ -320,6 +325,11 @@ def wrap_history(run, r):
 
 
 def replay(run, case):
+    if case.get('loopclient'):
+        from . import loopclient
+        case['layout']['units'] = {int(k): v for k, v in case['layout']['units'].items()}
+        loopclient.one(run, case, 'C08')
+        return
     for t in case['transactions']:
         m = t['m']
         if 'records' in m:
